@@ -114,7 +114,7 @@ pub fn cases(tier: Tier) -> Vec<Case> {
     }
     // the unselected branch of a conditional is not evaluated: no fault, no assignment
     for c in [Value::Bool(true), Value::Bool(false)] {
-        for prog in ["c ? 1 : 1 / 0", "c ? 1 / 0 : 2", "c ? (x = 1) : (x = 2) ; x", "c ? 1 : nofn()", "c ? 'a' + 1 : 5", "(c ? 1 : 1 / 0) + (c ? 1 / 0 : 2)", "x = 5 ; c ? x : (x = 6) ; x"] {
+        for prog in ["c ? 1 : 1 / 0", "c ? 1 / 0 : 2", "c ? (x = 1) : (x = 2) ; x", "c ? 1 : nofn()", "c ? 'a' + 1 : 5", "(c ? 1 : 1 / 0) + (c ? 1 / 0 : 2)", "x = 5 ; c ? x : (x = 6) ; x", "c ? (x = 1) : 0 ; x", "c ? 0 : (x = 2) ; x", "x = 9 ; c ? (x += 1) : (x -= 1) ; x", "[c ? (x = 1) : 2, x]"] {
             out.push(Case { program: prog.into(), bindings: bind(&["c"], &[&c]), key: format!("ternary-lazy:{}:{}", prog.replace(' ', ""), show_value(&c)), lenient_err: false });
         }
     }
